@@ -74,6 +74,17 @@ func RandomHistories(w *WorldJSON, seed int64, n, depth int, routers []string, f
 					}
 				}
 			}
+			if (focus == "clientauth" || focus == "exchange") && i%25 == 1 {
+				// scripted table inside a history: every client (with and without the token-exchange grant, confidential and public,
+				// unknown) asks for an exchange of a live access token with the credentials it is registered for
+				g.codeFlow("cw", emit)
+				if at := g.existing(d.atRaw, ""); at != "" {
+					for _, c := range []string{"cw", "cx", "cp", "cj", "cs", "cd", "cn", "cz"} {
+						emit("TokenExchange", M{"caller": c, "cred": g.rightCred(c), "subj": M{"kind": "access", "form": "issued", "id": at, "declared": "access"},
+							"actor": M{"kind": "none", "form": "none", "id": "none", "declared": "none"}, "requested": "access", "scopes": []string{"openid"}})
+					}
+				}
+			}
 			for s := 0; s < depth; s++ {
 				op, args := g.next()
 				switch op {
